@@ -109,6 +109,11 @@ def gen(repo):
     _one(r"if \(\(cl->extClipboardUserCap & rfbExtendedClipboard_Provide\) && len <= cl->extClipboardMaxUnsolicitedSize\) \{", u, "unsolicited provide guard")
     _one(r"\} else if \(cl->extClipboardUserCap & rfbExtendedClipboard_Notify\) \{", u, "notify guard")
     _one(r"cl->extClipboardDataSize = len \+ 1;", u, "cached size")
+    # handshake clients are skipped first thing in both publish loops (before LOCK / cache update)
+    _one(r"while \(\(cl = rfbClientIteratorNext\(iterator\)\) != NULL\) \{\s*(?:/\*.*?\*/\s*)?if \(cl->state != RFB_NORMAL\)\s*continue;",
+         u, "UTF8 publish skips handshake clients", re.S)
+    _one(r"while \(\(cl = rfbClientIteratorNext\(iterator\)\) != NULL\) \{\s*(?:/\*.*?\*/\s*)?if \(cl->state != RFB_NORMAL\)\s*continue;",
+         _body(s, "rfbSendServerCutText", sp), "classic publish skips handshake clients", re.S)
 
     # ---- client library
     hm = _body(c, "HandleRFBServerMessage", cp)
